@@ -182,7 +182,7 @@ func (a *genericAuthenticator) getSubjectInformation(ctx heimdall.Context, authD
 	)
 
 	if a.ttl > 0 {
-		cacheKey = a.calculateCacheKey(authData)
+		cacheKey = a.calculateCacheKey(ctx, authData)
 		if entry, err := cch.Get(ctx.AppContext(), cacheKey); err == nil {
 			logger.Debug().Msg("Reusing subject information from cache")
 
@@ -345,10 +345,25 @@ func (a *genericAuthenticator) getCacheTTL(sessionLifespan *SessionLifespan) tim
 	return a.ttl
 }
 
-func (a *genericAuthenticator) calculateCacheKey(reference string) string {
+func (a *genericAuthenticator) calculateCacheKey(ctx heimdall.Context, reference string) string {
 	digest := sha256.New()
 	digest.Write(a.e.Hash())
 	digest.Write(stringx.ToBytes(reference))
+
+	// the values of the forwarded headers and cookies are part of the request sent to the endpoint
+	for _, name := range a.fwdHeaders {
+		digest.Write([]byte{0})
+		digest.Write(stringx.ToBytes(name))
+		digest.Write([]byte{0})
+		digest.Write(stringx.ToBytes(ctx.Request().Header(name)))
+	}
+
+	for _, name := range a.fwdCookies {
+		digest.Write([]byte{0})
+		digest.Write(stringx.ToBytes(name))
+		digest.Write([]byte{0})
+		digest.Write(stringx.ToBytes(ctx.Request().Cookie(name)))
+	}
 
 	return hex.EncodeToString(digest.Sum(nil))
 }
